@@ -281,6 +281,12 @@ class LibLoops:
     def inline_generator_cm(self, fm, self_val, args, kwargs, item, node, st):
         e = self.e
         m, cls, fdef = fm
+        try:
+            if not hasattr(e, "inlined_src"):
+                e.inlined_src = set()
+            e.inlined_src.add(f"{cls or ''}.{fdef.name}:{m.sha1(fdef)}")
+        except Exception:
+            pass
         body = copy.deepcopy(fdef.body)
         nyield = [0]
 
